@@ -100,7 +100,7 @@ func regexMatch(pat, name string, delim byte) bool {
 
 func runC20(h *H) {
 	imports := []string{"From GoImap.Base Require Import Bytes.", "From GoImap.Model Require Import MatchList."}
-	corr := h.NewCorr("matchlist", imports, "ml_mismatches", 2500)
+	corr := h.NewCorr("matchlist", imports, "ml_mismatches", 2500).Type("ml_case")
 	h.Rule("MatchList(name, delim, ref, pattern): corpus (incl. non-ASCII delimiters), exhaustive over names in {a,b,/}* and patterns in {a,b,/,*,%}* up to the tier's lengths x 5 references x delimiter {'/', none}, seeded random up to length 12. Non-trivial = the pattern contains a wildcard and the name is non-empty; distinct by (name, delim, ref, pattern).")
 
 	one := func(name string, delim rune, ref, pat, src string) {
